@@ -12,9 +12,12 @@ fn leak(s: &str) -> &'static str {
     Box::leak(s.to_string().into_boxed_str())
 }
 
-fn parse_value(tok: &str, bounds: &[jbk::Bound<jbk::EntryIdx>]) -> jbk::Value {
+fn parse_value(tok: &str, bounds: &[jbk::Bound<jbk::EntryIdx>], delayed: bool) -> jbk::Value {
     let (k, rest) = tok.split_at(1);
     match k {
+        // `delayed`: the same integers handed over as delayed values (Value::UnsignedWord / SignedWord), resolved at write time
+        "u" if delayed => jbk::Value::UnsignedWord(rest.parse::<u64>().unwrap().into()),
+        "s" if delayed => jbk::Value::SignedWord(rest.parse::<i64>().unwrap().into()),
         "u" => jbk::Value::Unsigned(rest.parse().unwrap()),
         "s" => jbk::Value::Signed(rest.parse().unwrap()),
         "a" => jbk::Value::Array(payload(rest.strip_prefix(":").unwrap_or(rest)).into()),
@@ -114,6 +117,7 @@ pub fn run(c: &Case, tmp: &std::path::Path) -> Vec<String> {
     }
     let mut vows: Vec<Option<jbk::Vow<jbk::EntryIdx>>> = (0..nentries).map(|_| Some(Default::default())).collect();
     let prebound: Vec<jbk::Bound<jbk::EntryIdx>> = vows.iter().map(|v| v.as_ref().unwrap().bind()).collect();
+    let delayed = c.lines.iter().any(|l| l[0] == "delayed");
     let sch = schema::Schema::new(
         schema::CommonProperties::new(common),
         variants.into_iter().map(|(n, v)| (n, schema::VariantProperties::new(v))).collect(),
@@ -131,7 +135,7 @@ pub fn run(c: &Case, tmp: &std::path::Path) -> Vec<String> {
             let mut values = HashMap::new();
             for kv in &l[2..] {
                 let (n, v) = kv.split_once('=').unwrap();
-                values.insert(leak(n), parse_value(v, &prebound));
+                values.insert(leak(n), parse_value(v, &prebound, delayed));
             }
             let e = jbk::creator::BasicEntry::new_from_schema_idx(&entry_store.schema, vows[k].take().unwrap(), variant, values);
             // bind our own vow to this entry's final position: BasicEntry owns its Vow; we keep the Bound it returns
@@ -214,7 +218,7 @@ pub fn run(c: &Case, tmp: &std::path::Path) -> Vec<String> {
                     for kv in &l[3..] {
                         let (n, v) = kv.split_once('=').unwrap();
                         names.push(n.to_string());
-                        values.push(parse_value(v, &[]));
+                        values.push(parse_value(v, &[], false));
                     }
                     let cmp = Cmp { inner: builder, names, values, ordered: l[2] == "ordered=1", _p: Default::default() };
                     let found = index.find(&cmp).map_err(|e| err_class(&e).to_string())?;
